@@ -66,6 +66,15 @@ CHECKS = {
         "onceo keep exactly the first head answer in engine order, also when it appears only after lazy steps or the head is infinite "
         "(C08_condu, C08_onceo). Tied to the code by programs whose heads have 0/1/many/lazy/infinite answers run on the real engine and in "
         "the model (answer sequences diffed); oracle: reference soft-cut semantics assembled from runs of the heads alone on the real engine."),
+    "C09": dict(text="Theorems about the Lean model of Solver::next / take(n) and the hash-iteration parameter: LAZY — an outcome of next reached with some "
+        "work is the outcome for any larger amount, take(k) is stable under more fuel and is a prefix of take(k+j) (C09_lazy, C09_take_mono, "
+        "C09_take_prefix: nothing beyond the returned answers is needed, also on infinite streams); FUSED — exhaustion leaves the empty stream "
+        "and next on it stays exhausted (C09_fused, C09_exhausted_is_empty); DETERMINISTIC — next is a function of the stream "
+        "(C09_next_functional) and for pure tree programs the outcome is the same under ANY two hash-iteration orders "
+        "(C09_order_independent_tree). PARTIAL (named open obligation): sequence-level independence of the iteration order for arbitrary "
+        "programs, and real process-level hash randomisation, are decided by the correspondence: every program is run twice in-process, "
+        "under 3 forced iteration orders (permutation hook), to exhaustion + 3 extra next() calls, with take(n) vs take(n+4), and the whole "
+        "harness in fresh processes with fresh hash seeds (byte-identical output required); the model is diffed with the first run."),
     "C10": dict(text="PARTIAL by nature (stated in DESIGN.md): theorems give the algebraic law the code must refine — answers of conde {A, B} from a state "
         "are exactly the union of A alone and B alone from that state, for finite searches as multisets (C10_union, C10_union_inv, "
         "C10_union_dfs) and for arbitrary infinite/interleaved branches as membership (C10_union_mem); a step of a disjunction node leaves the "
